@@ -42,6 +42,11 @@ import (
 //@         l.elems[i] != nil && toplevel(l.elems[i]) && l.elems[i].owner == l && l.elems[i].idx == l.base + i &&
 //@         l.elems[i].next == ite(i+1 < len(l.elems), l.elems[i+1], &l.root) &&
 //@         l.elems[i].prev == ite(i > 0, l.elems[i-1], &l.root))
+// listConv: every node that claims to be in the list is in elems at its index (needed only where a node
+// is removed from the middle, i.e. for the lists of the all-store; kept apart from listInv because the
+// two quantifiers feed each other's triggers).
+//@ pure func listConv(l *List[T]) bool =
+//@     forall m *Node[T] :: m.owner == l ==> 0 <= m.idx - l.base && m.idx - l.base < len(l.elems) && l.elems[m.idx - l.base] == m
 
 //@ func (*List).IsEmpty
 //@   requires inv: listInv(l)
@@ -57,6 +62,7 @@ import (
 
 //@ func (*List).PushBack
 //@   requires inv:   listInv(l)
+//@   ensures  conv:  old(listConv(l)) ==> listConv(l)
 //@   requires free:  n != nil && toplevel(n) && n.owner == nil
 //@   modifies Node.next, Node.prev, Node.owner, Node.idx, List.elems
 //@   ghost l.elems := old(l.elems) ++ [n]
@@ -71,6 +77,7 @@ import (
 
 //@ func (*List).PopBack
 //@   requires inv:   listInv(l)
+//@   ensures  conv:  old(listConv(l)) ==> listConv(l)
 //@   modifies Node.next, Node.prev, Node.owner, List.elems
 //@   ghost l.elems := ite(len(old(l.elems)) > 0, old(l.elems)[:len(old(l.elems))-1], old(l.elems))
 //@   ghost result.owner := nil
@@ -85,6 +92,7 @@ import (
 
 //@ func (*List).PopFront
 //@   requires inv:   listInv(l)
+//@   ensures  conv:  old(listConv(l)) ==> listConv(l)
 //@   modifies Node.next, Node.prev, Node.owner, List.elems, List.base
 //@   ghost l.elems := ite(len(old(l.elems)) > 0, old(l.elems)[1:], old(l.elems))
 //@   ghost l.base  := ite(len(old(l.elems)) > 0, old(l.base) + 1, old(l.base))
@@ -98,6 +106,27 @@ import (
 //@   ensures  ghosts: forall m *Node[T] :: m != result ==> m.owner == old(m.owner)
 //@   ensures  lists: forall k *List[T] :: k != l ==> k.elems == old(k.elems) && k.base == old(k.base)
 
+// DeleteLink unlinks the partner node (n.link) from whatever list it is in, at any position.
+//@ pure func hasLink(n *Node[T]) bool = n != nil && n.link != nil
+//@ func (*Node).DeleteLink
+//@   requires linked: hasLink(n) ==> toplevel(n.link) && n.link.owner != nil && listInv(n.link.owner) && listConv(n.link.owner)
+//@   modifies Node.next, Node.prev, Node.link, Node.owner, Node.idx, List.elems
+//@   ghost old(n.link.owner).elems := ite(old(hasLink(n)), remove(old(n.link.owner.elems), old(n.link.idx - n.link.owner.base)), old(n.link.owner.elems))
+//@   ghost forall m *Node[T] :: m.idx := ite(old(hasLink(n)) && m.owner == old(n.link.owner) && m.idx > old(n.link.idx), m.idx - 1, m.idx)
+//@   ghost result.owner := nil
+//@   ensures  r:      result == ite(n == nil, nil, old(n.link))
+//@   ensures  inv:    old(hasLink(n)) ==> listInv(old(n.link.owner)) && listConv(old(n.link.owner))
+//@   ensures  len:    old(hasLink(n)) ==> len(old(n.link.owner).elems) == len(old(n.link.owner.elems)) - 1
+//@   ensures  before: old(hasLink(n)) ==> forall i int :: 0 <= i && i < old(n.link.idx - n.link.owner.base) ==> old(n.link.owner).elems[i] == old(n.link.owner.elems)[i]
+//@   ensures  after:  old(hasLink(n)) ==> forall i int :: old(n.link.idx - n.link.owner.base) <= i && i < len(old(n.link.owner).elems) ==> old(n.link.owner).elems[i] == old(n.link.owner.elems)[i+1]
+//@   ensures  out:    result != nil ==> result.next == nil && result.prev == nil && result.owner == nil
+//@   ensures  unlink: n != nil ==> n.link == nil
+//@   ensures  nodes:  forall m *Node[T] :: m != result && m != old(result.prev) && m != old(result.next) ==> m.next == old(m.next) && m.prev == old(m.prev)
+//@   ensures  links:  forall m *Node[T] :: m != n ==> m.link == old(m.link)
+//@   ensures  owners: forall m *Node[T] :: m != result ==> m.owner == old(m.owner)
+//@   ensures  idxs:   forall m *Node[T] :: m.idx == ite(old(hasLink(n)) && old(m.owner) == old(n.link.owner) && old(m.idx) > old(n.link.idx), old(m.idx) - 1, old(m.idx))
+//@   ensures  lists:  forall k *List[T] :: !(old(hasLink(n)) && k == old(n.link.owner)) ==> k.elems == old(k.elems)
+
 // ---------------------------------------------------------------------------
 // Per-key version list (file.go): the list plus, unless withoutSearch, an array
 // mirroring it for binary search.  b.owner: the file whose arr lives in backing store b.
@@ -105,7 +134,7 @@ import (
 //@ ghost field (backing).owner *file
 
 //@ pure func fileInv(f *file) bool =
-//@     f != nil && listInv(&f.l) && f.l.root.v.Seq == 0 &&
+//@     f != nil && listInv(&f.l) && f.l.root.v.Seq == 0 && (f.withoutSearch ==> listConv(&f.l)) &&
 //@     (f.withoutSearch || (len(f.arr) == len(f.l.elems) &&
 //@         (backing(f.arr) == nil || backing(f.arr).owner == f) &&
 //@         (forall i int :: 0 <= i && i < len(f.arr) ==> f.arr[i] == f.l.elems[i])))
